@@ -35,7 +35,7 @@ EXTENDS Integers, Sequences, FiniteSets, TLC
 
 CONSTANTS Design,       \* "orig" | "fixed"
           Derefers,     \* set of deref thread ids
-          BodyKind,     \* "value" | "error" | "sleeps" (honours cancellation) | "ignores" (does not)
+          BodyKind,     \* "value" | "error" | "sleeps" (honours cancellation) | "ignores" (does not) | "borndead"
           WithCancel,   \* BOOLEAN: a canceller thread exists
           CallerCtxEnds \* BOOLEAN: the derefers' caller context may end
 
@@ -71,6 +71,9 @@ BodyEval == /\ bpc = "running"
             /\ \/ /\ BodyKind \in {"value", "ignores"} /\ outcome' = "val"
                \/ /\ BodyKind = "error" /\ outcome' = "err"
                \/ /\ BodyKind = "sleeps" /\ outcome' = (IF bodyCtxCancelled THEN "timeout" ELSE "val")
+               \* the context the future was created under had ended before the body started: its evaluation ends at
+               \* once with the timeout error, whether or not anybody cancels the future
+               \/ /\ BodyKind = "borndead" /\ outcome' = "timeout"
             /\ bpc' = "evaluated"
             /\ UNCHANGED <<slot, done, cancelled, bodyCtxCancelled, starts, completedUncancelled>> /\ UNCHANGED Rest
 \* "fixed": done is set (under the mutex) BEFORE the outcome is delivered
